@@ -2,6 +2,8 @@
 //! path and run next to core's builders on scripted fields.
 //!   dtup <spec idx> <hex name> <ex|nx> <field>,<field>,...   field := l<hex> | f | i<u32> | n
 //!   probe <spec idx>                                          what the `f` field prints under that spec
+//!   dval <spec idx> <tree>     tree := field | (T <hex name> <ex|nx> tree...) | (S <hex name> <ex|nx> <hex fname> tree ...)
+//!                              tuple nodes: the crate's DebugTuple (dm) / core's (std); struct nodes: core's DebugStruct
 #![allow(dead_code)]
 use std::fmt::{self, Debug, Formatter};
 use std::io::{self, BufRead, Write};
@@ -56,6 +58,78 @@ impl Debug for Field {
             Field::Int(n) => Debug::fmt(n, f),
             Field::Nested => Debug::fmt(&Inner(7, "a\nb"), f),
         }
+    }
+}
+
+enum Node {
+    Leaf(Field),
+    Tuple(String, bool, Vec<Node>),
+    Struct(String, bool, Vec<(String, Node)>),
+}
+
+struct View<'a>(&'a Node, bool);
+
+impl Debug for View<'_> {
+    fn fmt(&self, f: &mut Formatter<'_>) -> fmt::Result {
+        let dm = self.1;
+        match self.0 {
+            Node::Leaf(x) => Debug::fmt(x, f),
+            Node::Tuple(name, ex, kids) => {
+                if dm {
+                    let mut b = dmfmt::debug_tuple(f, name);
+                    for k in kids {
+                        b.field(&View(k, dm));
+                    }
+                    if *ex { b.finish() } else { b.finish_non_exhaustive() }
+                } else {
+                    let mut b = f.debug_tuple(name);
+                    for k in kids {
+                        b.field(&View(k, dm));
+                    }
+                    if *ex { b.finish() } else { b.finish_non_exhaustive() }
+                }
+            }
+            Node::Struct(name, ex, kids) => {
+                let mut b = f.debug_struct(name);
+                for (n, k) in kids {
+                    b.field(n, &View(k, dm));
+                }
+                if *ex { b.finish() } else { b.finish_non_exhaustive() }
+            }
+        }
+    }
+}
+
+fn parse_tree(toks: &[&str], pos: &mut usize) -> Option<Node> {
+    let t = *toks.get(*pos)?;
+    *pos += 1;
+    if t != "(" {
+        return parse_fields(t)?.into_iter().next().map(Node::Leaf);
+    }
+    let kind = *toks.get(*pos)?;
+    let name = hex_decode(toks.get(*pos + 1)?)?;
+    let ex = *toks.get(*pos + 2)? == "ex";
+    *pos += 3;
+    match kind {
+        "T" => {
+            let mut kids = vec![];
+            while *toks.get(*pos)? != ")" {
+                kids.push(parse_tree(toks, pos)?);
+            }
+            *pos += 1;
+            Some(Node::Tuple(name, ex, kids))
+        }
+        "S" => {
+            let mut kids = vec![];
+            while *toks.get(*pos)? != ")" {
+                let n = hex_decode(toks.get(*pos)?)?;
+                *pos += 1;
+                kids.push((n, parse_tree(toks, pos)?));
+            }
+            *pos += 1;
+            Some(Node::Struct(name, ex, kids))
+        }
+        _ => None,
     }
 }
 
@@ -131,6 +205,21 @@ fn handle(line: &str) -> String {
             let dm = apply(idx, &Run { name: &name, fields: &fields, exhaustive: ex, dm: true });
             let st = apply(idx, &Run { name: &name, fields: &fields, exhaustive: ex, dm: false });
             match (dm, st) {
+                (Some(d), Some(s)) => format!("dm={} std={}", hex_encode(&d), hex_encode(&s)),
+                _ => "bad-op".into(),
+            }
+        }
+        ["dval", idx, tree @ ..] => {
+            let spaced = tree.join(" ").replace('(', " ( ").replace(')', " ) ");
+            let toks: Vec<&str> = spaced.split_whitespace().collect();
+            let mut pos = 0;
+            let (Ok(idx), Some(node)) = (idx.parse::<usize>(), parse_tree(&toks, &mut pos)) else {
+                return "bad-op".into();
+            };
+            if pos != toks.len() {
+                return "bad-op".into();
+            }
+            match (apply(idx, &View(&node, true)), apply(idx, &View(&node, false))) {
                 (Some(d), Some(s)) => format!("dm={} std={}", hex_encode(&d), hex_encode(&s)),
                 _ => "bad-op".into(),
             }
